@@ -206,6 +206,13 @@ func seqReadViaComparator(p *Prog, fa *ssa.FieldAddr, cmps map[*ssa.Function]boo
 					continue
 				}
 				g := x.Call.StaticCallee()
+				if sp, _, isPad := paddedReadHelper(g); isPad && sp < len(x.Call.Args) && x.Call.Args[sp] == v {
+					// a padded read moved into a helper: its result is the element or the padding constant
+					if !okVal(x, depth+1) {
+						return false
+					}
+					continue
+				}
 				if g == nil || !cmps[g] {
 					return false
 				}
